@@ -99,6 +99,9 @@ def foreign_namesake_docs():
                 for inner in ("<select></select>", "<table></table>", "<table><tr><td></table>"):
                     for follow in ("<caption>", "<col>", "<tr>", "<td>", "<tbody>", "x", "<option>", "</table>"):
                         out.append("%s<%s>%s%s%s" % (root, name, ip, inner, follow))
+                # the integration point directly followed by tokens that look at the stack by name
+                for follow in ("<frameset>", "<body a=1>", "<html b=2>", "</body>", "</html>x", "<head>", "<frameset><frame>"):
+                    out.append("%s<%s>%s%s" % (root, name, ip, follow))
     return out
 
 
